@@ -23,6 +23,7 @@ type Reply struct {
 	Revoked   bool   // ... authentic evidence of revocation
 	Decisive  bool   // authentic answer that ends the OCSP phase (good, revoked or unknown-status)
 	Status    int    // HTTP status (0 = 200)
+	Header    http.Header
 	Body      []byte
 	Err       error  // transport error instead of a response
 	BodyErrAt int    // >0: body read fails after this many bytes
@@ -282,7 +283,7 @@ func (s *Sim) RoundTrip(hr *http.Request) (resp *http.Response, err error) {
 	return &http.Response{
 		StatusCode: st, Status: fmt.Sprintf("%d %s", st, http.StatusText(st)),
 		Proto: "HTTP/1.1", ProtoMajor: 1, ProtoMinor: 1,
-		Header: http.Header{}, Body: rc, ContentLength: -1, Request: hr,
+		Header: hdrOrEmpty(rep.Header), Body: rc, ContentLength: -1, Request: hr,
 	}, nil
 }
 
@@ -384,4 +385,11 @@ func (b *Barrier) Open() {
 		}
 		b.waiting[r] = nil
 	}
+}
+
+func hdrOrEmpty(h http.Header) http.Header {
+	if h == nil {
+		return http.Header{}
+	}
+	return h.Clone()
 }
